@@ -71,3 +71,13 @@ package js_printer
 // have been written as a string literal (ModuleExportName : IdentifierName | StringLiteral), so the parser's
 // representability check never saw it; choosing identifier syntax for it must itself rule that combination out.
 //@ guarded alias-printed-as-identifier-is-representable C16: func=(*printer).printClauseAlias ; in=js_printer ; site=call printIdentifier ; scenario=export_string_alias_nonbmp ; require-any=false:p.options.ASCIIOnly || false:call Has(p.options.UnsupportedFeatures,*) || false:call ContainsNonBMPCodePoint(*)
+
+// C01 (`in` inside a for-loop initialiser): ECMA-262 threads the [In] grammar parameter through the expression grammar;
+// `for (var f = k => k in o, i = 0; ...)` is a SyntaxError because the arrow's ConciseBody[?In] inherits [~In]. The
+// printer models [~In] with the forbidIn flag (2). Wherever the grammar says [?In] and nothing is printed around the
+// operand that would reset it (parentheses, brackets, braces), the flag handed to the operand is computed from the flag
+// the printer was given: the third operand of `?:`, the expression body of an arrow, the operand of `yield`, the right
+// operand of a binary or comma operator.
+//@ flow forbid-in-is-inherited.conditional-else C01: func=(*printer).printExpr ; in=js_printer ; site=call printExprWithoutLeadingNewline ; when-arg=1:*.No ; argpath=3:*flags&2
+//@ flow forbid-in-is-inherited.arrow-body C01: func=(*printer).printExpr ; in=js_printer ; site=call printExprWithoutLeadingNewline ; when-arg=1:*.ValueOrNil ; scenario=arrow_body_in_for_init ; arg-from=3:flags
+//@ flow forbid-in-is-inherited.binary-right C01: func=(*binaryExprVisitor).visitRightAndFinish ; in=js_printer ; site=call printExpr ; when-arg=1:*.Right ; scenario=arrow_body_in_for_init ; argpath=3:v.flags&10* OR v.flags&2*
